@@ -188,6 +188,36 @@ class SyncPublisher(Publisher, Subscription):
         self.w.api(self.ep, self.name, 'cancel', ())
 
 
+class EagerTerminalPublisher(Publisher, Subscription):
+    """Application publisher that signals its terminal event from inside subscribe(), before any demand (empty completion or
+    error at once) - allowed by Reactive Streams."""
+
+    def __init__(self, w, ep, name, error=False):
+        self.w, self.ep, self.name, self.is_error = w, ep, name, error
+        self.subscriber = None
+        self.cancelled = 0
+        self.requests = []
+
+    def subscribe(self, subscriber):
+        self.subscriber = subscriber
+        self.w.api(self.ep, self.name, 'subscribe', ())
+        subscriber.on_subscribe(self)
+        if self.is_error:
+            self.w.api(self.ep, self.name, 'emit-error', ())
+            subscriber.on_error(RuntimeError('fails at once'))
+        else:
+            self.w.api(self.ep, self.name, 'emit-complete', ())
+            subscriber.on_complete()
+
+    def request(self, n):
+        self.requests.append(n)
+        self.w.api(self.ep, self.name, 'request', (n,))
+
+    def cancel(self):
+        self.cancelled += 1
+        self.w.api(self.ep, self.name, 'cancel', ())
+
+
 class RecHandler(BaseRequestHandler):
     """Recording RequestHandler. `beh` maps method name -> callable(handler, payload) implementing the application."""
 
